@@ -93,8 +93,8 @@ class RelaxationFactory(object):
         if T2 == 0:
             ep = 0
         else:
-            e2 = np.sqrt(tg/T2)
-            ep = np.sqrt((1/2) * (e2**2 - e1**2/2))
+            # Use the rates themselves: squaring rounded square roots can make the radicand negative at T2 = 2*T1.
+            ep = np.sqrt((1/2) * (tg/T2 - (tg/T1 if T1 != 0 else 0)/2))
 
         W = np.random.normal(0, np.sqrt(Dt))
         I = np.random.normal(0, np.sqrt(V(Dt)))
@@ -153,8 +153,8 @@ class SingleQubitGateFactory(object):
         if T2 == 0:
             ep = 0
         else:
-            e2 = np.sqrt(tg/T2)
-            ep = np.sqrt((1/2) * (e2**2 - e1**2/2))
+            # Use the rates themselves: squaring rounded square roots can make the radicand negative at T2 = 2*T1.
+            ep = np.sqrt((1/2) * (tg/T2 - (tg/T1 if T1 != 0 else 0)/2))
 
         """ 1) UNITARY CONTRIBUTION """
 
@@ -438,8 +438,8 @@ class CRFactory(object):
         if T2_ctr == 0:
             ep_ctr = 0
         else:
-            e2_ctr = np.sqrt(tg/T2_ctr)
-            ep_ctr = np.sqrt((1/2) * (e2_ctr**2 - e1_ctr**2/2))
+            # Use the rates themselves: squaring rounded square roots can make the radicand negative at T2 = 2*T1.
+            ep_ctr = np.sqrt((1/2) * (tg/T2_ctr - (tg/T1_ctr if T1_ctr != 0 else 0)/2))
 
         if T1_trg == 0:
             e1_trg = 0
@@ -449,8 +449,8 @@ class CRFactory(object):
         if T2_trg == 0:
             ep_trg = 0
         else:
-            e2_trg = np.sqrt(tg/T2_trg)
-            ep_trg = np.sqrt((1/2) * (e2_trg**2 - e1_trg**2/2))
+            # Use the rates themselves: squaring rounded square roots can make the radicand negative at T2 = 2*T1.
+            ep_trg = np.sqrt((1/2) * (tg/T2_trg - (tg/T1_trg if T1_trg != 0 else 0)/2))
 
         U = np.array(
             [[np.cos(theta/2), -1J*np.sin(theta/2) * np.exp(-1J * phi), 0, 0],
